@@ -175,6 +175,9 @@ class C19Real(C19):
     def coq_case(self, c, out):
         t = c.line.split()
         script = [] if t[1] == "-" else t[1].split(",")
+        if out.strip() == "SKIP":          # the loopback socket could not be set up: no verdict (a case that says nothing)
+            c.nontrivial = False
+            return "CReal 0 0 [] [true] [] 1 true false"
         f = out.split()
         o = dict(zip(f[0::2], f[1::2]))
         cmds = [] if o["CMDS"] == "-" else o["CMDS"].split(",")
@@ -188,6 +191,7 @@ class C19Real(C19):
 
     def model_term(self, c):
         return "(real_model %d)" % (0 if c.line.split()[1] == "-" else len(c.line.split()[1].split(",")))
+
 
 PROP = C19()
 PROP.parts = [PROP, DeepPart("C19", "resp", "resp", b"d8:intervali1e5:peersle3:zzz", b"e", "TrackerResp::from_bencode"), C19Real()]
